@@ -55,6 +55,79 @@ theorem expand_head (x : Nat × Bool) (P : List (Nat × Bool)) : ∀ (is : List 
       subst h1
       exact ⟨rfl, Or.inr ⟨r, rfl, rfl, by rw [h2]; simp [expand]⟩⟩
 
+/-! ## only the order inside an instruction matters -/
+
+theorem accRet_lastlast : ∀ (q : List Acc) (k : Nat) (last : Bool) (a : Acc), q[k]? = some a →
+    (∀ b ∈ q, b.lastPending = true) → (last = true → a.rest = 0) →
+    ∀ b ∈ accRet q k last, b.lastPending = true
+  | q, 0, last, a, hk, hall, hord => accRet_inorder q last a hk hall hord
+  | [], k + 1, _, _, hk, _, _ => by simp at hk
+  | x :: q, k + 1, last, a, hk, hall, hord => by
+    intro b hb
+    simp only [accRet] at hb
+    rcases List.mem_cons.1 hb with e | e
+    · rw [e]; exact hall x List.mem_cons_self
+    · exact accRet_lastlast q k last a (by simpa using hk) (fun y hy => hall y (List.mem_cons_of_mem _ hy)) hord b e
+
+theorem gstep_AllLast' (c : Cfg) (gs : GState) (o : GOp) (h : AllLast gs.g) (hok : respOK gs o = true)
+    (hin : lastLast gs o = true) : AllLast (gstep c gs o).g := by
+  cases o with
+  | plain o => exact h
+  | memIssue i v n => exact gstep_AllLast c gs _ h hok rfl
+  | memRet i kind k last =>
+    simp only [respOK, Bool.and_eq_true, Bool.or_eq_true, beq_iff_eq] at hok
+    obtain ⟨hkind, hent⟩ := hok
+    simp only [lastLast, Bool.or_eq_true, Bool.not_eq_true'] at hin
+    intro j
+    simp only [gstep]
+    by_cases hj : j = i
+    · subst hj
+      simp only [if_true]
+      cases hq : (pathQueue (gs.g j) kind)[k]? with
+      | none => rw [hq] at hent; cases hent
+      | some a =>
+        rw [hq] at hin
+        have hord : last = true → a.rest = 0 := by
+          intro hl
+          rcases hin with e | e
+          · rw [hl] at e; cases e
+          · simpa using e
+        rcases hkind with (h0 | h1) | h3
+        · have hp : pathQueue (gs.g j) kind = (gs.g j).qv := by simp [pathQueue, h0]
+          rw [hp] at hq
+          simp only [gRet, h0, true_or, if_true]
+          exact ⟨accRet_lastlast _ k last a hq (h j).1 hord, (h j).2⟩
+        · have hp : pathQueue (gs.g j) kind = (gs.g j).qv := by simp [pathQueue, h1]
+          rw [hp] at hq
+          simp only [gRet, h1, or_true, if_true]
+          exact ⟨accRet_lastlast _ k last a hq (h j).1 hord, (h j).2⟩
+        · have hp : pathQueue (gs.g j) kind = (gs.g j).qs := by simp [pathQueue, h3]
+          rw [hp] at hq
+          have e1 : ¬ ((3 : Nat) = 0 ∨ (3 : Nat) = 1) := by decide
+          simp only [gRet, h3, e1, if_false, if_true]
+          exact ⟨(h j).1, accRet_lastlast _ k last a hq (h j).2 hord⟩
+    · simp only [if_neg hj]; exact h j
+
+theorem grun_AllLast' (c : Cfg) (ops : List GOp) (gs : GState) (h : AllLast gs.g)
+    (hok : respOKRun c gs ops = true) (hin : lastLastRun c gs ops = true) : AllLast (grun c gs ops).g := by
+  unfold grun
+  induction ops generalizing gs with
+  | nil => exact h
+  | cons o ops ih =>
+    simp only [respOKRun, Bool.and_eq_true] at hok
+    simp only [lastLastRun, Bool.and_eq_true] at hin
+    exact ih _ (gstep_AllLast' c gs o h hok.1 hin.1) hok.2 hin.2
+
+theorem inOrder_lastLast (gs : GState) (o : GOp) (h : inOrder gs o = true) : lastLast gs o = true := by
+  cases o with
+  | plain o => rfl
+  | memIssue i v n => rfl
+  | memRet i kind k last =>
+    simp only [inOrder, Bool.and_eq_true, beq_iff_eq] at h
+    obtain ⟨hk, h2⟩ := h
+    subst hk
+    exact h2
+
 /-! ## the log of annotated events -/
 
 theorem grun_snoc (c : Cfg) (gs : GState) (l : List GOp) (o : GOp) :
@@ -145,6 +218,7 @@ structure CInv (c : Cfg) (vc : Vmu.Cfg) (rc : C15.Cfg) (g0 : GState) (σ : CSys)
   nf : NF σ.sys.rob σ.sys.out σ.sys.rob.nextTop
   port : σ.vmu.sent = List.range σ.sys.rob.nextTop ++ σ.vmu.out
   tlen : σ.table.length = σ.vmu.next
+  adm : σ.adm = List.range σ.sys.rob.nextTop
   kinds : ∀ t ∈ σ.table, t.kind = 0 ∨ t.kind = 1
   pend : ∀ i, pendOf σ i = expand (σ.oi i) (σ.g.g i).qv
   len : ∀ i, (σ.oi i).length = (σ.g.g i).qv.length
@@ -185,11 +259,13 @@ theorem CInv.sys_keep {σ : CSys} (h : CInv c vc rc g0 σ) (e : C15.Ev)
     CInv c vc rc g0 { σ with sys := C15.sysStep rc σ.sys e } := by
   obtain ⟨evs, he⟩ := h.isRun
   refine { vmu := h.vmu, isRun := ⟨evs ++ [e], by rw [sysRun_snoc, ← he]⟩, nf := ?_, port := ?_, tlen := h.tlen,
-           kinds := h.kinds, pend := ?_, len := h.len, glog := h.glog, ok := h.ok, ord := h.ord }
+           adm := ?_, kinds := h.kinds, pend := ?_, len := h.len, glog := h.glog, ok := h.ok, ord := h.ord }
   · show NF (C15.sysStep rc σ.sys e).rob (C15.sysStep rc σ.sys e).out (C15.sysStep rc σ.sys e).rob.nextTop
     rw [hn.nt]; exact hn
   · show σ.vmu.sent = List.range (C15.sysStep rc σ.sys e).rob.nextTop ++ σ.vmu.out
     rw [hn.nt]; exact h.port
+  · show σ.adm = List.range (C15.sysStep rc σ.sys e).rob.nextTop
+    rw [hn.nt]; exact h.adm
   · intro i
     show ((σ.table.drop (C15.sysStep rc σ.sys e).out.length).filter _).map _ = _
     rw [ho]; exact h.pend i
@@ -221,8 +297,8 @@ theorem cstep_inv (hf : GFresh g0) (σ : CSys) (e : CEv) (h : CInv c vc rc g0 σ
   | other o =>
     obtain ⟨hnf, h1, h2⟩ := hs o rfl
     obtain ⟨l1, l2, l3⟩ := log_ext o h.glog h.ok h.ord h1 h2
-    refine { vmu := h.vmu, isRun := h.isRun, nf := h.nf, port := h.port, tlen := h.tlen, kinds := h.kinds,
-             pend := ?_, len := ?_, glog := l1, ok := l2, ord := l3 }
+    refine { vmu := h.vmu, isRun := h.isRun, nf := h.nf, port := h.port, tlen := h.tlen, adm := h.adm,
+             kinds := h.kinds, pend := ?_, len := ?_, glog := l1, ok := l2, ord := l3 }
     · intro i
       show pendOf σ i = expand (σ.oi i) ((gstep c σ.g o).g i).qv
       rw [other_qv c σ.g o hnf i]; exact h.pend i
@@ -240,7 +316,8 @@ theorem cstep_inv (hf : GFresh g0) (σ : CSys) (e : CEv) (h : CInv c vc rc g0 σ
       · rfl
     have hm : σ.sys.out.length ≤ σ.table.length := by have := h.bounds; omega
     refine { vmu := Vmu.vmu_step_inv vc σ.vmu (.issue (n + 1) p) h.vmu, isRun := h.isRun, nf := h.nf,
-             port := h.port, tlen := ?_, kinds := ?_, pend := ?_, len := ?_, glog := l1, ok := l2, ord := l3 }
+             port := h.port, tlen := ?_, adm := h.adm, kinds := ?_, pend := ?_, len := ?_, glog := l1, ok := l2,
+             ord := l3 }
     · show (σ.table ++ newTxns i (kindOf store) σ.vmu.next n).length = σ.vmu.next + (n + 1)
       simp [newTxns, h.tlen]
     · intro t ht
@@ -278,13 +355,13 @@ theorem cstep_inv (hf : GFresh g0) (σ : CSys) (e : CEv) (h : CInv c vc rc g0 σ
   | vcyc =>
     obtain ⟨l, c1, c2, c3⟩ := cycle_app vc σ.vmu
     refine { vmu := Vmu.vmu_cycle_inv vc σ.vmu h.vmu, isRun := h.isRun, nf := h.nf, port := ?_, tlen := ?_,
-             kinds := h.kinds, pend := h.pend, len := h.len, glog := h.glog, ok := h.ok, ord := h.ord }
+             adm := h.adm, kinds := h.kinds, pend := h.pend, len := h.len, glog := h.glog, ok := h.ok, ord := h.ord }
     · show (Vmu.cycle vc σ.vmu).sent = List.range σ.sys.rob.nextTop ++ (Vmu.cycle vc σ.vmu).out
       rw [c1, c2, h.port, List.append_assoc]
     · show σ.table.length = (Vmu.cycle vc σ.vmu).next
       rw [c3]; exact h.tlen
   | conn q =>
-    simp only [cstep]
+    simp only [cstep, cstepG]
     split
     · exact h
     · rename_i e rest hout
@@ -300,7 +377,7 @@ theorem cstep_inv (hf : GFresh g0) (σ : CSys) (e : CEv) (h : CInv c vc rc g0 σ
         have hn := arrive_nf rc σ.sys q h.nf hroom
         obtain ⟨evs, hev⟩ := h.isRun
         refine { vmu := take_inv vc σ.vmu 1 h.vmu, isRun := ⟨evs ++ [.arrive q], by rw [sysRun_snoc, ← hev]⟩,
-                 nf := ?_, port := ?_, tlen := h.tlen, kinds := h.kinds, pend := h.pend, len := h.len,
+                 nf := ?_, port := ?_, tlen := h.tlen, adm := ?_, kinds := h.kinds, pend := h.pend, len := h.len,
                  glog := h.glog, ok := h.ok, ord := h.ord }
         · show NF (C15.sysStep rc σ.sys (.arrive q)).rob (C15.sysStep rc σ.sys (.arrive q)).out
             (C15.sysStep rc σ.sys (.arrive q)).rob.nextTop
@@ -308,12 +385,14 @@ theorem cstep_inv (hf : GFresh g0) (σ : CSys) (e : CEv) (h : CInv c vc rc g0 σ
         · show σ.vmu.sent = List.range (C15.sysStep rc σ.sys (.arrive q)).rob.nextTop ++ σ.vmu.out.drop 1
           rw [hn.nt, hport, hout, List.range_succ, he]
           simp
+        · show σ.adm ++ [e] = List.range (C15.sysStep rc σ.sys (.arrive q)).rob.nextTop
+          rw [hn.nt, List.range_succ, h.adm, he]
       · exact h
   | robTick => exact h.sys_keep .tick rfl (sysTick_nf rc σ.sys h.nf)
   | memTake => exact h.sys_keep .memTake (memTake_out rc σ.sys) (memTake_nf rc σ.sys h.nf)
   | memAnswer j p => exact h.sys_keep (.memAnswer j p) (memAnswer_out rc σ.sys j p) (memAnswer_nf rc σ.sys j p h.nf)
   | ret =>
-    simp only [cstep]
+    simp only [cstep, cstepG]
     split
     · exact h
     · rename_i r rest htop
@@ -327,6 +406,10 @@ theorem cstep_inv (hf : GFresh g0) (σ : CSys) (e : CEv) (h : CInv c vc rc g0 σ
       · exact h
       · rename_i t ht
         rw [hr] at ht
+        have ht : σ.table[σ.sys.out.length]? = some t := by
+          unfold txnOf at ht
+          rw [h.adm, List.getElem?_range hlt] at ht
+          simpa using ht
         have htm : t = σ.table[σ.sys.out.length] := by
           rw [List.getElem?_eq_getElem hm] at ht
           exact (Option.some.inj ht).symm
@@ -379,7 +462,7 @@ theorem cstep_inv (hf : GFresh g0) (σ : CSys) (e : CEv) (h : CInv c vc rc g0 σ
           · unfold upd; rw [if_neg hj]
           · rfl
         refine { vmu := h.vmu, isRun := ⟨evs ++ [.takeRsp], by rw [sysRun_snoc, ← hev]⟩, nf := ?_, port := ?_,
-                 tlen := h.tlen, kinds := h.kinds, pend := ?_, len := ?_, glog := l1, ok := l2, ord := l3 }
+                 tlen := h.tlen, adm := ?_, kinds := h.kinds, pend := ?_, len := ?_, glog := l1, ok := l2, ord := l3 }
         · show NF (C15.sysStep rc σ.sys .takeRsp).rob (C15.sysStep rc σ.sys .takeRsp).out
             (C15.sysStep rc σ.sys .takeRsp).rob.nextTop
           rw [t1]
@@ -389,6 +472,10 @@ theorem cstep_inv (hf : GFresh g0) (σ : CSys) (e : CEv) (h : CInv c vc rc g0 σ
           rw [t1]
           show σ.vmu.sent = List.range (C15.step rc σ.sys.rob .drainTop).nextTop ++ σ.vmu.out
           rw [t2.nt]; exact h.port
+        · show σ.adm = List.range (C15.sysStep rc σ.sys .takeRsp).rob.nextTop
+          rw [t1]
+          show σ.adm = List.range (C15.step rc σ.sys.rob .drainTop).nextTop
+          rw [t2.nt]; exact h.adm
         · intro j
           show ((σ.table.drop (C15.sysStep rc σ.sys .takeRsp).out.length).filter (fun u => u.wf = j)).map
               (fun u => (u.ins, u.last)) =
@@ -427,7 +514,7 @@ theorem cstep_inv (hf : GFresh g0) (σ : CSys) (e : CEv) (h : CInv c vc rc g0 σ
 
 theorem init_inv (hf : GFresh g0) : CInv c vc rc g0 (CSys.init vc g0) := by
   refine { vmu := Vmu.vmu_init_inv vc, isRun := ⟨[], rfl⟩, nf := ⟨rfl, rfl, rfl, rfl, rfl, rfl⟩, port := rfl,
-           tlen := rfl, kinds := (fun t ht => by cases ht), pend := ?_, len := ?_, glog := rfl, ok := rfl, ord := rfl }
+           tlen := rfl, adm := rfl, kinds := (fun t ht => by cases ht), pend := ?_, len := ?_, glog := rfl, ok := rfl, ord := rfl }
   · intro i
     show _ = expand [] (g0.g i).qv
     rw [hf.2 i]; rfl
